@@ -242,3 +242,96 @@ def worker_calls(mir_text):
             if m:
                 calls.setdefault(m.group(1), set()).add(name.split("::<")[0])
     return {k: sorted(v) for k, v in calls.items()}
+
+
+def _eager(proto, sol, s, who):
+    T = proto.T
+    some_woken = z3.Or(*[z3.And(s.pc[w] == WAITING, s.notif[w]) for w in range(T)])
+    sol.add(z3.Implies(some_woken, z3.Or(*[z3.And(who == w, s.pc[w] == WAITING, s.notif[w]) for w in range(T)])))
+
+
+def state_vars(s):
+    return s.mk.vars() + s.pc + s.L + s.notif + [s.consumed, s.generated, s.discarded, s.stop_req, s.qclose_bad]
+
+
+def deep_search(proto: Protocol, J, K, timeout_ms, tries=6):
+    """Two-phase search for violations deeper than the plain BMC bound.
+    Phase 1: from ANY state satisfying the inductive invariant, J eager steps to a violation.
+    Phase 2: reach exactly that pre-state from the real initial state within K steps.
+    Only a violation whose pre-state is reachable is reported (with the concatenated, replayable
+    trace); unreachable candidates are discarded and blocked.  Returns (result, stats)."""
+    T = proto.T
+    P0 = proto.P0
+    t0 = time.time()
+    sol = z3.Solver()
+    sol.set("timeout", timeout_ms)
+    states = [SysState("d0", T)]
+    whos = []
+    sol.add(proto.inv(states[0]), P0 >= 0, P0 <= proto.lmax)
+    # counters are relative: start them consistently with the conservation law
+    s0 = states[0]
+    sol.add(s0.consumed >= 0, s0.generated >= 0, s0.discarded == 0, s0.consumed <= 3 * proto.lmax, s0.generated <= 3 * proto.lmax,
+            z3.Implies(z3.Not(s0.stop_req), s0.work_total() + s0.consumed == P0 + s0.generated))
+    for j in range(J):
+        t = SysState(f"d{j+1}", T)
+        f, who = proto.step(states[j], t, f"d{j}")
+        sol.add(f)
+        _eager(proto, sol, states[j], who)
+        states.append(t)
+        whos.append(who)
+    stats = {"candidates": 0, "unreachable": 0, "phase1_queries": 0, "phase2_queries": 0}
+    for attempt in range(tries):
+        found = None
+        for j in range(0, J + 1):
+            s = states[j]
+            for name, f in (("deadlock", proto.deadlock(s)), ("lost_or_duplicated", proto.lost_or_duplicated(s, P0))):
+                sol.push()
+                sol.add(f)
+                r = sol.check()
+                stats["phase1_queries"] += 1
+                if r == z3.sat:
+                    found = (name, j, sol.model())
+                sol.pop()
+                if found:
+                    break
+            if found:
+                break
+        if not found:
+            return None, {**stats, "time": time.time() - t0}
+        name, j, m = found
+        stats["candidates"] += 1
+        pre = [(v, m.eval(v, model_completion=True)) for v in state_vars(states[0])]
+        p0v = m.eval(P0, model_completion=True)
+        # phase 2: is that pre-state reachable?
+        sol2 = z3.Solver()
+        sol2.set("timeout", timeout_ms)
+        st2 = [SysState("r0", T)]
+        sol2.add(proto.init(st2[0], P0), P0 == p0v)
+        who2 = []
+        reach = None
+        for k in range(K + 1):
+            sol2.push()
+            sol2.add(*[a == val for a, (_, val) in zip(state_vars(st2[k]), pre)])
+            r = sol2.check()
+            stats["phase2_queries"] += 1
+            if r == z3.sat:
+                reach = (k, sol2.model())
+                sol2.pop()
+                break
+            sol2.pop()
+            if k < K:
+                t = SysState(f"r{k+1}", T)
+                f, who = proto.step(st2[k], t, f"r{k}")
+                sol2.add(f)
+                _eager(proto, sol2, st2[k], who)
+                st2.append(t)
+                who2.append(who)
+        if reach:
+            k, m2 = reach
+            tr1, sn1 = decode(m2, st2[: k + 1], who2[:k], T)
+            tr2, sn2 = decode(m, states[: j + 1], whos[:j], T)
+            return {"verdict": "violation", "obligation": name, "step": k + j, "trace": tr1 + tr2, "states": sn1 + sn2[1:], "P0": p0v.as_long(), "T": T,
+                    "found_by": f"two-phase search: invariant state + {j} steps, pre-state reached from the initial state in {k} steps"}, {**stats, "time": time.time() - t0}
+        stats["unreachable"] += 1
+        sol.add(z3.Or(*[v != val for v, val in pre]))  # block this candidate
+    return None, {**stats, "time": time.time() - t0, "gave_up": True}
